@@ -62,7 +62,8 @@ WavVerdict(r) ==
      ELSE IF Len(r.out) # Len(e) THEN "length"
      ELSE IF \E k \in 1..Len(e) : r.out[k] # (IF c.keep THEN e[k] ELSE e[k][1]) THEN "value"
      ELSE IF ~c.keep /\ \E k \in 1..Len(e) : r.out[k] < (-h) - h \/ r.out[k] > (h - 1) + h THEN "range"
-     ELSE IF ~r.open_mid THEN "closed-early"
+     \* (r.open_mid - the file was still open before the last sample - is logged but not demanded: C18 bounds how
+     \*  long the file may stay open, not how early a reader holding all the data may close it)
      ELSE IF ~r.closed_end THEN "not-closed"
      ELSE "ok"
 
